@@ -74,6 +74,7 @@ MergeAll(p, ps, exts) ==
 Normalise(ps) == LET bases == SelectSeq([i \in Idxs(ps) |-> i], LAMBDA i : ~ps[i].ext) IN
                  [k \in Idxs(bases) |-> MergeAll(ps[bases[k]], ps, ExtsOf(ps, bases[k]))]
 
+Introspectable(ps) == ~\E i \in Idxs(ps) : ps[i].kind = "SCHEMA" /\ "nonIntrospectable" \in SeqSet(ps[i].tdirs)
 TypeKinds == {"OBJECT", "INTERFACE", "UNION", "ENUM", "SCALAR", "INPUT"}
 TypePieces(n) == SelectSeq(n, LAMBDA p : p.kind \in TypeKinds)
 TypeNamed(n, name) == LET S == {i \in Idxs(n) : n[i].kind \in TypeKinds /\ n[i].name = name} IN IF S = {} THEN 0 ELSE CHOOSE i \in S : TRUE
@@ -211,6 +212,12 @@ Variations(ps) ==
   \cup {[ps EXCEPT ![i].fields = Append(@, f)] : i \in {j \in Idxs(ps) : ~ps[j].ext /\ ps[j].kind = "OBJECT" /\ ps[j].name \in {"Query", "Mut", "Post"}}, f \in NewFields}
   \cup {Append(ps, [ExtPiece("OBJECT", "Query") EXCEPT !.fields = <<f>>]) : f \in NewFields}
   \cup {Append(ps, [ExtPiece("ENUM", "Color") EXCEPT !.values = <<[EV("PINK") EXCEPT !.dep = d]>>]) : d \in BOOLEAN}
+  \* an interface-typed interface field implemented by an implementer of that interface (valid)
+  \cup {Append(Append(ps, [Piece(FALSE, "INTERFACE", "Media") EXCEPT !.fields = <<Fd("owner", Nm("Node"), <<>>)>>]),
+               [Piece(FALSE, "OBJECT", "Video") EXCEPT !.ifaces = <<"Media">>, !.fields = <<Fd("owner", Nn(Nm("User")), <<>>)>>])}
+  \* a schema that refuses introspection: @nonIntrospectable on the schema definition or on a directive-only `extend schema`
+  \cup {[ps EXCEPT ![PIdx(ps, "", "SCHEMA")].tdirs = <<"nonIntrospectable">>] : x \in IF Introspectable(ps) THEN {1} ELSE {}}
+  \cup {Append(ps, [ExtPiece("SCHEMA", "") EXCEPT !.tdirs = <<"nonIntrospectable">>]) : x \in IF Introspectable(ps) THEN {1} ELSE {}}
   \* a directive applied to an `extend` piece (and to a base definition)
   \cup {Append(ps, [ExtPiece("OBJECT", "Query") EXCEPT !.fields = <<Fd("tagged", Nm("Int"), <<>>)>>, !.tdirs = <<"tag">>])}
   \cup {[ps EXCEPT ![PIdx(ps, "Post", "OBJECT")].tdirs = <<"tag">>]}
@@ -257,6 +264,9 @@ Breaks(ps) ==
   \cup {BR("interfaces", "mistyped-argument", [ps EXCEPT ![po].fields = [@ EXCEPT ![2] = [@ EXCEPT !.args = <<ArD("up", Nm("Int"), L("int", 1))>>]]])}
   \cup {BR("interfaces", "extra-required-argument", [ps EXCEPT ![po].fields = [@ EXCEPT ![2] = [@ EXCEPT !.args = Append(@, Ar("req", Nn(Nm("Int"))))]]])}
   \cup {BR("interfaces", "extra-required-argument-on-argless-field", [ps EXCEPT ![po].fields = [@ EXCEPT ![1] = [@ EXCEPT !.args = <<Ar("fmt", Nn(Nm("String")))>>]]])}
+  \cup {BR("interfaces", "list-of-implementer-for-interface-typed-field",
+           Append(Append(ps, [Piece(FALSE, "INTERFACE", "Media") EXCEPT !.fields = <<Fd("owner", Nm("Node"), <<>>)>>]),
+                  [Piece(FALSE, "OBJECT", "Video") EXCEPT !.ifaces = <<"Media">>, !.fields = <<Fd("owner", t, <<>>)>>])) : t \in {Li(Nm("User")), Nn(Li(Nn(Nm("User")))), Li(Li(Nm("Post")))}}
   \cup {BR("interfaces", "implements-non-interface", [ps EXCEPT ![po].ifaces = Append(@, x)]) : x \in {"User", "Color", "Item", "Nope"}}
   \cup {BR("interfaces", "implements-via-extend", Append(ps, [ExtPiece("OBJECT", "Query") EXCEPT !.ifaces = <<"Node">>]))}
   \* roots
